@@ -1,5 +1,5 @@
 ----------------------------- MODULE MC_Schedule -----------------------------
-(* Bounded design model of SCHEDULE.  One state per input.                                        *)
+(* Bounded design model of SCHEDULE.  One state per input (plus one per schedule).                                        *)
 (*   schedules : every unit, n in 1..MaxN, every in-order selection of <= MaxSlots slots from the   *)
 (*               unit's menu that satisfies the property's precondition (Schedule!Pre)              *)
 (*   starts    : the anchors, and around the unit boundary (Depth >= 2: and the next one) and every *)
@@ -8,7 +8,7 @@
 (*               (Depth >= 2) before start, at / just before the first, just after the last         *)
 (* plus one-slot schedules built from every pair of part kinds for every unit (most of them are     *)
 (* invalid: kind not available for the unit, or a unit mentioned twice).                            *)
-(* The input space is written to OUT_FILE so that the harness runs the real SCHEDULE on it.         *)
+(* The input space is written out (see Chunk) so that the harness runs the real SCHEDULE on it.    *)
 EXTENDS Schedule, TLC, Json, IOUtils, SequencesExt, FiniteSetsExt
 CONSTANTS MaxN, MaxSlots, Counts, NAnchors, Depth
 
@@ -79,13 +79,11 @@ Ends(in) ==
                       <<1, e[l], 1>>, <<1, e[l] + 1, 0>>}
                 ELSE {})
 
-Good ==
+InputsFor(sc) ==
   UNION {
-    UNION {
-      LET in == WithStart(sc, sp[1], sp[2], cnt)
-      IN {[in EXCEPT !.hasEnd = x[1], !.end = x[2], !.esub = x[3]] : x \in Ends(in)}
-      : sp \in Starts(sc), cnt \in Counts}
-    : sc \in Scheds}
+    LET in == WithStart(sc, sp[1], sp[2], cnt)
+    IN {[in EXCEPT !.hasEnd = x[1], !.end = x[2], !.esub = x[3]] : x \in Ends(in)}
+    : sp \in Starts(sc), cnt \in Counts}
 
 \* one-slot schedules from one or two parts of every kind (validity decided by Schedule!StructValid)
 SomeParts == {Date(3, 15), Mday(15), Wday(3), Time(9, 0, 1), Time(15, 45, 0), Mins(30)}
@@ -94,13 +92,24 @@ Probes ==
   {WithStart([unit |-> u, n |-> 1, slots |-> <<s>>], AllAnchors[1], 0, 2) :
      u \in 1..7, s \in {<<p>> : p \in SomeParts} \cup {<<p, q>> : p \in SomeParts, q \in SomeParts}}
 Bad == {in \in Probes : ~StructValid(in)}
-Valid == Good \cup Bad \cup {in \in Probes : StructValid(in) /\ Pre(in)}
+ProbeInputs == Bad \cup {in \in Probes : StructValid(in) /\ Pre(in)}
 
-ASSUME /\ "OUT_FILE" \in DOMAIN IOEnv => JsonSerialize(IOEnv.OUT_FILE, SetToSeq(Valid))
-ASSUME PrintT(<<"inputs", Cardinality(Valid), "schedules", Cardinality(Scheds), "invalid", Cardinality(Bad)>>)
+(* One initial state per schedule (k = 0: the probes); its successors are the inputs of that schedule,  *)
+(* so that TLC's workers build and check them in parallel.  While computing the successors of schedule  *)
+(* k, TLC writes them to <OUT_FILE>.<k>.json for the harness.                                           *)
+SchedSeq == SetToSeq(Scheds)
+ASSUME PrintT(<<"schedules", Len(SchedSeq), "invalid probes", Cardinality(Bad)>>)
 
-VARIABLE input
-Init == input \in Valid
-Next == UNCHANGED input
-SpecSane == Sane(input)
+VARIABLES phase, k, input
+vars == <<phase, k, input>>
+Chunk(i, S) == "OUT_FILE" \in DOMAIN IOEnv
+                 => JsonSerialize(IOEnv.OUT_FILE \o "." \o ToString(i) \o ".json", SetToSeq(S))
+Init == phase = "schedule" /\ k \in 0..Len(SchedSeq) /\ input = 0
+Next ==
+  \/ /\ phase = "schedule"
+     /\ LET S == IF k = 0 THEN ProbeInputs ELSE InputsFor(SchedSeq[k])
+        IN Chunk(k, S) /\ input' \in S
+     /\ phase' = "input" /\ k' = k
+  \/ phase = "input" /\ UNCHANGED vars
+SpecSane == phase = "input" => Sane(input)
 =============================================================================
